@@ -854,6 +854,26 @@ func runC03(c *config) {
 		}
 		c03Check(c, m, map[string]interface{}{"program": "blockaddress of an unnamed block of a later function, in a global and in an earlier function"}, "", false)
 	}
+	// an indirect function: its type is the function pointer its resolver returns (LLVM: `@i = ifunc T, T* ()* @res`),
+	// and a call through it has T's result type (KF-45, repaired)
+	{
+		m := ir.NewModule()
+		ft := types.NewFunc(types.I32, types.I32)
+		res := m.NewFunc("res", types.NewPointer(ft))
+		res.NewBlock("").NewRet(constant.NewNull(types.NewPointer(ft)))
+		ifn := m.NewIFunc("i", res)
+		f := m.NewFunc("main", types.I32)
+		b := f.NewBlock("")
+		call := b.NewCall(ifn, constant.NewInt(types.I32, 1))
+		b.NewRet(call)
+		text, oc, _ := printGuard(m)
+		if oc != ocOk || !strings.Contains(text, "@i = ifunc i32 (i32), i32 (i32)* ()* @res") || !call.Type().Equal(types.I32) {
+			o.Fail("constructed_text", "", "a constructed ifunc is not printed with the type its resolver returns a pointer to", map[string]interface{}{"printed": text, "call_type": call.Type().String()})
+		} else {
+			o.Pass("constructed_text")
+		}
+		c03Check(c, m, map[string]interface{}{"program": "an ifunc, called"}, "", false)
+	}
 	// address spaces can only be given by assigning the field after the constructor: the typed uses must follow
 	for variant := 0; variant < 3; variant++ {
 		m := ir.NewModule()
